@@ -393,7 +393,10 @@ def gen_req(rng, gid: list[int], namespaced: bool) -> dict[str, Any]:
     if rng.random() < 0.5:
         gid[0] += 1
         g = {"g": f"G{gid[0]}"}
-    return {"op": "get", "name": rng.choice(NAMES + ["missing"] if rng.random() < 0.1 else NAMES[: rng.choice([1, 2, 3])]), "ns": ns, "ns_via": via, "async": rng.random() < 0.5, "globals": g}
+    name = rng.choice(NAMES + ["missing"] if rng.random() < 0.1 else NAMES[: rng.choice([1, 2, 3])])
+    if namespaced and rng.random() < 0.12:
+        name = rng.choice(["A/t1", "B/t1", "A/t2", "B/t3"])  # a name with a directory part of its own, spelled like a namespace
+    return {"op": "get", "name": name, "ns": ns, "ns_via": via, "async": rng.random() < 0.5, "globals": g}
 
 
 def gen_case(rng, thorough: bool) -> dict[str, Any]:
@@ -424,7 +427,28 @@ def gen_case(rng, thorough: bool) -> dict[str, Any]:
             "mtime_step": rng.choice([1, 1, -1, -3600, 86400])}
 
 
+def slash_name_cases():
+    """Names that carry a directory part spelled like a namespace, requested without a namespace before / after the namespaced request for
+    the bare name: (namespace A, name t1) and (no namespace, name A/t1) are different requests."""
+    def get(name, ns, via="kwarg", is_async=False):
+        return {"op": "get", "name": name, "ns": ns, "ns_via": via if ns else "none", "async": is_async, "globals": None}
+
+    for kind in ("nsdict", "nsfs", "choice"):
+        for keys in (["t1"], ["t1", "A/t1"], ["t1", "B/t1"], ["t1", "t2", "A/t2"]):
+            for order in (0, 1):
+                for via in ("kwarg", "context"):
+                    for is_async in (False, True):
+                        pair = [get("t1", "A", via, is_async), get("A/t1", None, "none", is_async)]
+                        if order:
+                            pair.reverse()
+                        steps = pair + [get("t1", None), get("A/t1", "B", via, is_async), get("t1", "A", via), {"op": "edit", "key": keys[-1]}, get("A/t1", None), get("t1", "A", via)]
+                        yield {"kind": kind, "keys": keys, "auto_reload": True, "capacity": 4, "env_globals": False, "steps": steps, "mtime_step": 1}
+
+
 def cases(ctx: core.Ctx):
+    for gi, c in enumerate(slash_name_cases()):
+        if gi % ctx.nshards == ctx.shard:
+            yield c
     rng = ctx.rng("cases")
     for _ in range(ctx.budget(2500, 160_000)):
         yield gen_case(rng, ctx.tier == "thorough")
